@@ -636,13 +636,13 @@ func classifyErrValue(v ssa.Value, at *ssa.BasicBlock, depth int) int {
 			if res == 2 {
 				res = k
 			} else if res != k {
-				return ExitMaybe
+				res = ExitMaybe
 			}
 		}
-		if res == 2 {
-			return ExitMaybe
+		if res == ExitSuccess || res == ExitFailure {
+			return res
 		}
-		return res
+		// undetermined by the edges: a dominating nil test of the merged value may still decide
 	}
 	facts := FactsAt(at)
 	// the block itself may end the fact chain: include conditions of at's own dominators only.
